@@ -314,6 +314,22 @@ func JobPost(j *Job) {
 	park(j, 1)
 }
 
+var unlockHook func(site string)
+
+// SetUnlockHook installs f to be called right after the converter cache code
+// releases one of its locks by a statement (as opposed to a deferred unlock at
+// the end of the call): the place at which a second caller can get in.
+//
+//go:norace
+func SetUnlockHook(f func(site string)) { unlockHook = f }
+
+//go:norace
+func Unlocked(site string) {
+	if h := unlockHook; h != nil && active {
+		h(site)
+	}
+}
+
 var yieldOn bool
 
 // SetYield switches the gates inside job bodies on (a job then also parks
